@@ -158,7 +158,10 @@ func c3layout(x poly.Sequence, text string, fail func(clause, exp, got string), 
 
 // c3judge: one record, one execution (one order of every map iteration inside Build).
 type c3memo struct {
-	first map[string]string // record key -> first Build output
+	first    map[string]string // record key -> first Build output
+	prevOut  []byte            // the slice the previous Build returned (not a copy)
+	prevCopy string
+	prevCas  string
 }
 
 func c3judge(r *mc.Recorder, memo *c3memo, key, cas string, tags []string, x poly.Sequence) {
@@ -172,6 +175,11 @@ func c3judge(r *mc.Recorder, memo *c3memo, key, cas string, tags []string, x pol
 		return
 	}
 	text := string(out)
+	// text returned by an earlier Build must not change when Build is called again
+	if memo.prevOut != nil && string(memo.prevOut) != memo.prevCopy {
+		r.Failf("written-text-stable", memo.prevCas+" (text re-read after a later Build)", tags, q(memo.prevCopy), q(string(memo.prevOut)))
+	}
+	memo.prevOut, memo.prevCopy, memo.prevCas = out, text, cas
 	if first, ok := memo.first[key]; ok {
 		if first != text {
 			fail("deterministic-bytes", "the same bytes for every iteration order of the record's maps", c3firstDiff(first, text))
@@ -294,8 +302,9 @@ func c3structured(c *mc.Ctx, thorough bool, tags *[]string) poly.Sequence {
 			f.GbkLocationString = e.text()
 		}
 		nq := []int{1, 0, 2, 3, 8}[c.Dev(fmt.Sprintf("f%d.qualifiers", i), 5)]
-		keys := []string{"gene", "note", "product", "locus_tag", "db_xref", "function", "codon_start", "label"}
-		vals := []string{"abcD", "a note with / and = inside", "hypothetical protein", "b0001", "GeneID:944742", c3text(150), "1", "my label"}
+		// qualifier names are case-sensitive: "note" and "Note" are different keys
+		keys := []string{"gene", "note", "Note", "product", "locus_tag", "db_xref", "function", "codon_start"}
+		vals := []string{"abcD", "a note with / and = inside", "a second note under a capitalised name", "hypothetical protein", "b0001", "GeneID:944742", c3text(150), "1"}
 		for k := 0; k < nq; k++ {
 			f.Attributes[keys[k]] = vals[k]
 		}
